@@ -52,6 +52,13 @@ _A = ['Type 1/2: the on-demand loading of the memory reader (16-byte READ / RALL
 ASSUMPTIONS = {'C01': _A,
                'C02': _A + ['power cut = the tag executes the first k state-changing commands completely and nothing '
                             'afterwards (a WRITE is atomic for its page / block / byte)',
+                            'several operations on one tag object: the memory reader state (data_from_tag, data_in_cache) across '
+                            'write attempts is in the Coq model (run_attempt: a command fails after the 3 tries either lost or executed-'
+                            'but-unanswered; after a failed synchronize the reader forgets its cache - repair c02-tlv-reader-reset-after-'
+                            'failed-write) and compared with the real reader after every failed attempt; invariant reader_ok and the '
+                            'retry / rewrite theorems are in Props/C02_tlv.v, Props/C01_tlv.v.  Monitor-only / not modelled: which '
+                            'CommunicationError subclass the fault raises (all three end as TagCommandError after the retries), faults on '
+                            'READ / SECTOR SELECT commands, retries of format(), more than one tag object on one tag',
                             'Type 1: the theorem carries the guard "one length byte, or the three length bytes share a write '
                             'unit"; the excluded class is the open finding of findings/C02.json (refutation witness in Props/C02_tlv.v)'],
                'C03': _A + ['Topaz / Topaz-512 format() (tt1_broadcom.py) is modelled as the fixed address writes it performs; it '
@@ -625,8 +632,9 @@ def retry_case(ck, L, old, new, k1, kind, executed, pid, rng, sample_real=1, bt=
     """two operations on the SAME tag object: tag.ndef.octets = new fails at its k1-th state-changing command
     with a transient fault (lost command, or executed with the response lost; the tag answers again
     afterwards), then the same assignment is retried and the tag leaves the field after k2 commands of
-    the retry, for every k2; a fresh reader then looks at the memory.  Monitor only (appendix D):
-    old | empty / no NDEF / not readable | new, and the uninterrupted retry succeeds and reads back."""
+    the retry, for every k2; a fresh reader then looks at the memory.  Monitor (appendix D): old | empty /
+    no NDEF / not readable | new, and the uninterrupted retry succeeds and reads back; correspondence: tag
+    memory and reader state after the failed attempt, commands and fresh views of the retry vs the model."""
     mem = bytearray(L.mem)
     L2 = Layout()
     L2.__dict__.update(L.__dict__)
@@ -831,6 +839,16 @@ def corpus(ck, bt, pid, rng):
         format_case(ck, bt, L, 0)
     if pid == 'C01':
         write_case(ck, bt, L, b'\xd0\x00\x00', pid, rng)
+    # Type 2, length byte is the last byte of page 4: an assignment whose commit command is executed but not answered, then
+    # an assignment of other data on the same tag object (stale reader cache; repair c02-tlv-reader-reset-after-failed-write)
+    L = Layout()
+    L.kind, L.first, L.unit, L.off, L.dend, L.R, L.oneway = 't2', 16, 4, 18, 16 + 8 * 12, set(), set()
+    L.mem = bytearray(bytes([1, 2, 3, 0x88, 5, 6, 7, 8, 0x0C, 0x48, 0, 0, 0xE1, 0x10, 12, 0]) + bytes([0, 0, 3, 0]) + bytes(92))
+    L.cap_expected = 96 - 3 - 2
+    if pid == 'C02':
+        d1 = bytes(range(100, 130))
+        n1 = len(run_write_on(L, bytes(range(1, 41)), d1))
+        rewrite_case(ck, L, bytes(range(1, 41)), d1, n1, FAULT_KINDS[0], True, bytes(range(200, 230)), pid, rng, bt=bt)
     # static Topaz, first write command lost, retry on the same tag object (seeded regression C02-b1)
     L = Layout()
     L.kind, L.first, L.unit, L.off, L.dend, L.oneway, L.hr = 't1s', 12, 1, 12, 120, set(), bytes([0x11, 0x00])
